@@ -136,3 +136,26 @@ func VH_C02_JarUnlistedMemberRejected() {
 	vhReach("checked") // vh:require checked
 	vhAssert(verifyManifest(zg, manifest) != nil, "member-not-listed-in-the-manifest-rejected")
 }
+
+// H02.jar-dup: two archive members with one name (the "master key" shape: a
+// verifier that looks at one copy while the consumer uses the other).
+// verifyManifest is given a manifest vouching for a.class and an archive in
+// which a second a.class with other content sits in front of the genuine
+// one: rejected - whichever copy comes first.
+func VH_C02_JarDuplicateMemberRejected() {
+	vhMaxLen(4096)
+	vhLoopBound(600)
+	data := []byte{0xca, 0xfe}
+	manifest := []byte("Manifest-Version: 1.0\r\n\r\nName: a.class\r\nSHA-256-Digest: " + vhB64(data) + "\r\n\r\n")
+	evil := &vhJarMember{name: "a.class", data: vhBytes("other-content", 2)}
+	good := &vhJarMember{name: "a.class", data: data}
+	ms := []*vhJarMember{{name: manifestName, data: manifest}, evil, good}
+	if vhBool("genuine-copy-first") {
+		ms[1], ms[2] = good, evil
+	}
+	file := vhJarZip(nil, nil, nil, ms)
+	zr, err := zip.NewReader(bytes.NewReader(file), int64(len(file)))
+	vhAssert(err == nil, "archive-opens")
+	vhReach("checked") // vh:require checked
+	vhAssert(verifyManifest(zr, manifest) != nil, "duplicate-member-name-rejected")
+}
